@@ -154,6 +154,29 @@ static void c03(const Trace& t, const Analysis& A, Verdict& V) {
 			for (uint32_t i = w.b; i < w.e; ++i) if (t.ev[i].inst == w.inst && t.ev[i].kind == EV_CB && isGuard(t.ev[i].method)) { V.add(3, i, F("guard consulted during %s", opName(w.code))); break; }
 			continue;
 		}
+		if (w.activation && !f.bare) {
+			// activation: the initial state's entry guards are evaluated first (no pending transition); every redirect requested by a guard is
+			// then evaluated by the entry guards of its destination; a cancelled redirect is not entered: the machine falls back to the last
+			// redirect that passed, or to the initial state
+			for (size_t k = 1; k < w.rounds.size(); ++k) {
+				const Round& r = w.rounds[k]; const Round& p = w.rounds[k - 1];
+				if (r.hasExit) V.add(3, r.first, "exit guard consulted during activation");
+				if (!p.madeReq) V.add(3, r.first, "a further entry-guard round ran during activation although the previous round made no request");
+				else if (!(r.pend == p.lastReq)) V.add(3, r.first, F("activation round %zu evaluates %s but the guard request was %s", k + 1, trStr(r.pend).c_str(), trStr(p.lastReq).c_str()));
+				if (r.hasEntry && r.pend.valid && r.entryState != r.pend.dest) V.add(3, r.first, F("entry guard of s%d consulted for pending destination s%d", sidOf(r.entryState), sidOf(r.pend.dest)));
+			}
+			if (!w.rounds.empty()) {
+				const uint32_t g0 = w.rounds.front().first, g1 = w.rounds.back().last;
+				for (uint32_t i = g0; i <= g1 && i < w.e; ++i) { const Ev& x = t.ev[i]; if (x.inst == w.inst && x.kind == EV_CB && isLife(x.method)) { V.add(3, i, "enter/exit/reenter ran during guard evaluation (activation)"); break; } }
+				const uint8_t want = w.survivor >= 1 ? w.rounds[w.survivor].pend.dest : 0;
+				const LifeSeq ls = lifeSelf(t, w);
+				for (size_t k = 0; k < ls.v.size(); ++k) if (ls.v[k].first != M_EXIT && ls.v[k].second != want)
+					V.add(3, ls.at[k], F("activation entered s%d, but %s", ls.v[k].second, w.survivor >= 1 ? F("the last redirect that passed its entry guards was %s", trStr(w.rounds[w.survivor].pend).c_str()).c_str() : "every redirect was cancelled by an entry guard (the initial state s0 is the fall-back)"));
+				const Ev& e = t.ev[w.e - 1];
+				if (e.mAct != want) V.add(3, w.e - 1, F("activation ended in s%d; expected s%d (%s)", sidOf(e.mAct), want, w.survivor >= 1 ? "destination of the last redirect that passed its entry guards" : "initial state: no redirect survived"));
+			}
+			continue;
+		}
 		if (!w.processing || f.bare) continue;
 		for (size_t k = 0; k < w.rounds.size(); ++k) {
 			const Round& r = w.rounds[k];
